@@ -14,55 +14,13 @@
 (* Written from the property statement and the language definition of      *)
 (* entitlement sets and mappings; not a transliteration of sema/access.go. *)
 (***************************************************************************)
-EXTENDS Naturals, FiniteSets, Sequences, SequencesExt, TLC, Json
+EXTENDS EntitlementsBase, Sequences, SequencesExt, TLC, Json
 
-CONSTANTS E,        \* universe of entitlements (strings)
-          MaxRel,   \* bound on the number of explicit relations of a mapping
+CONSTANTS MaxRel,   \* bound on the number of explicit relations of a mapping
           UseDev    \* TRUE: the image rule is the named deviation DevImageDropsEmpty
+\* (E, the universe of entitlements, is declared in EntitlementsBase)
 
-Worlds   == SUBSET E
-NonEmpty == (SUBSET E) \ {{}}
-
-Un   == [k |-> "un",   s |-> {}]     \* unauthorized reference / access(all) member
-Self == [k |-> "self", s |-> {}]     \* access(self): only the declaring type itself
-Err  == [k |-> "err",  s |-> {}]     \* "image not representable": the program is rejected
-SetAuth == {[k |-> kk, s |-> ss] : kk \in {"conj", "disj"}, ss \in NonEmpty}
-RefAuth == {Un} \cup SetAuth         \* what a reference type can carry
-Auth    == RefAuth \cup {Self}       \* what a member requirement can be
-
-\* ---------------------------------------------------------------- semantics
-W(a) == CASE a.k = "un"   -> Worlds
-          [] a.k = "self" -> {}                                  \* no outside holder at all
-          [] a.k = "conj" -> {w \in Worlds : a.s \subseteq w}
-          [] a.k = "disj" -> {w \in Worlds : w \cap a.s # {}}
-
-\* requirement `req` is satisfied by every holder of `held`
-Permits(req, held) == W(held) \subseteq W(req)
-
-\* ------------------------------------------------- documented rule: permits
-PermitsRule(req, held) ==
-  CASE held.k = "self" -> TRUE
-    [] req.k  = "self" -> FALSE
-    [] req.k  = "un"   -> TRUE
-    [] held.k = "un"   -> FALSE
-    [] req.k = "conj" /\ held.k = "conj" -> req.s \subseteq held.s
-    [] req.k = "disj" /\ held.k = "conj" -> req.s \cap held.s # {}
-    [] req.k = "disj" /\ held.k = "disj" -> held.s \subseteq req.s
-    [] req.k = "conj" /\ held.k = "disj" -> \A h \in held.s : \A r \in req.s : r = h
-
-Norm(k, s) == IF s = {} THEN Un ELSE [k |-> k, s |-> s]
-
-\* --------------------------------------------- documented rule: intersection
-\* (authorization of a reference reached through another reference)
-IntersectRule(a, b) ==
-  CASE a.k \notin {"conj", "disj"} \/ b.k \notin {"conj", "disj"} -> Un
-    [] a.k = "conj" /\ b.k = "conj" -> Norm("conj", a.s \cap b.s)
-    [] a.k = "conj" /\ b.k = "disj" -> IF b.s \subseteq a.s THEN b ELSE Un
-    [] a.k = "disj" /\ b.k = "conj" -> IF a.s \subseteq b.s THEN a ELSE Un
-    [] OTHER -> Un
-\* x is a sound answer for "what do a-holder and b-holder both guarantee"
-IntersectSound(x, a, b) == Permits(x, a) /\ Permits(x, b)
-
+\* Worlds, W, Permits, PermitsRule, IntersectRule, IntersectSound: see EntitlementsBase
 \* ------------------------------------------------------------------ mappings
 \* A mapping is a relation over E, optionally including the identity relation.
 \* `include` of other mappings is union of relations and disjunction of the
@@ -146,6 +104,15 @@ UpcastMapped == LET img == [a \in RefAuth |-> ImageRule(m, a)]
                 IN \A a, b \in RefAuth : Pm(b, a) /\ img[a].k # "err" => reach[b] \subseteq reach[a]
 ReachIsSound == \A a \in RefAuth : LET i == ImageRule(m, a) IN
                   i.k # "err" => \A r \in Auth : Pm(r, i) => r \in snd[a]
+\* With the deviation switched on (UseDev), ImageSound and UpcastMapped are refuted; this invariant
+\* states that the deviation is the *only* cause: every unsound image and every escalation through
+\* an upcast has a disjunction with an empty-image alternative at its root.
+DevOnlyCause ==
+  LET img == [a \in RefAuth |-> ImageDev(m, a)]
+      reach == [a \in RefAuth |-> IF img[a].k = "err" THEN {} ELSE {r \in Auth : Pm(r, img[a])}]
+  IN /\ \A a \in RefAuth : img[a].k # "err" /\ img[a] \notin snd[a] => DevApplies(m, a)
+     /\ \A a \in RefAuth : ~DevApplies(m, a) => img[a] = ImageExact(m, a)
+     /\ \A a, b \in RefAuth : Pm(b, a) /\ img[a].k # "err" /\ ~(reach[b] \subseteq reach[a]) => DevApplies(m, b)
 \* the most precise sound answers are sound (sanity of the table itself)
 SoundTabOK == \A a \in Auth : Un \in snd[a]
 
